@@ -147,3 +147,65 @@ Proof.
   exists a', s'. split; [exact E1|rewrite E2; exact Hp].
 Qed.
 End AllDraw.
+
+(* ------------------------------------------------------------------ C03: if no successor is valued +INF or more
+   (from the mover's side: no score of -INF or less), the move loop over a non-empty list ends with a best move *)
+Section HasBest.
+Variable rec : Position -> SS -> Z -> Z -> Z -> Z -> bool -> option (Z * SS).
+Hypothesis Hfin : forall q s a b pl d cn v s', rec q s a b pl d cn = Some (v, s') -> v < INF.
+
+Lemma search_move_gt p in_chk beta ply depth idx m np s alpha score s' :
+  search_move rec p in_chk beta ply depth idx m np s alpha = Some (score, s') -> - INF < score.
+Proof.
+  unfold search_move. destruct (idx =? 0).
+  - destruct (rec np s (- beta) (- alpha) (ply + 1) (depth - 1) true) as [[v s1]|] eqn:E; [|discriminate].
+    intros H. injection H as <- _. apply Hfin in E. lia.
+  - match goal with |- match ?x with _ => _ end = _ -> _ => destruct x as [[v s1]|] eqn:E; [|discriminate] end.
+    cbv zeta. destruct ((alpha <? - v) && (- v <? beta)).
+    + destruct (rec np s1 (- beta) (- alpha) (ply + 1) (depth - 1) true) as [[v2 s2]|] eqn:E2; [|discriminate].
+      intros H. injection H as <- _. apply Hfin in E2. lia.
+    + intros H. injection H as <- _. apply Hfin in E. lia.
+Qed.
+
+Lemma n_loop_keeps_some p in_chk beta ply depth : forall ms idx s alpha best bm r,
+  bm <> None -> n_loop rec p in_chk beta ply depth ms idx s alpha best bm = Some r -> snd (fst r) <> None.
+Proof.
+  induction ms as [|m ms IH]; intros idx s alpha best bm r Hb H; cbn [n_loop] in H.
+  - injection H as <-. exact Hb.
+  - match type of H with match ?x with _ => _ end = _ => destruct x as [[score s1]|]; [|discriminate] end.
+    cbv zeta in H. destruct (best <? score); destruct (beta <=? _) in H.
+    + injection H as <-. discriminate.
+    + apply IH in H; [exact H|discriminate].
+    + injection H as <-. exact Hb.
+    + apply IH in H; [exact H|exact Hb].
+Qed.
+
+Theorem n_loop_has_best p in_chk beta ply depth m ms s alpha r :
+  n_loop rec p in_chk beta ply depth (m :: ms) 0 s alpha (- INF) None = Some r -> snd (fst r) <> None.
+Proof.
+  cbn [n_loop]. intros H.
+  match type of H with match ?x with _ => _ end = _ => destruct x as [[score s1]|] eqn:E; [|discriminate] end.
+  apply search_move_gt in E. cbv zeta in H.
+  destruct (Z.ltb_spec (- INF) score); [|lia].
+  destruct (beta <=? _) in H.
+  - injection H as <-. discriminate.
+  - apply n_loop_keeps_some in H; [exact H|discriminate].
+Qed.
+End HasBest.
+
+(* C03 assembled at the root node: with legal moves and finite successor values, the root records a legal move *)
+Theorem root_node_answers_legal rec p s ao alpha beta ply depth in_chk cn ttm v s' :
+  (forall q s a b pl d cn v s', rec q s a b pl d cn = Some (v, s') -> v < INF) ->
+  legal_moves p <> [] ->
+  nm_moves rec p s ao alpha beta ply depth in_chk true cn ttm = Some (v, s') ->
+  exists m, st_best (ss_stats s') = Some m /\ In m (legal_moves p).
+Proof.
+  intros Hfin Hne H.
+  destruct (root_node_best_legal rec p s ao alpha beta ply depth in_chk cn ttm v s' H) as [Hok|(r & Hr & Hnone)]; [exact Hok|].
+  exfalso.
+  assert (Hs : sort_n p (legal_moves p) ttm <> []).
+  { intros E. apply Hne. pose proof (sort_n_perm p (legal_moves p) ttm) as Hp. rewrite E in Hp.
+    apply Permutation_nil in Hp. exact Hp. }
+  destruct (sort_n p (legal_moves p) ttm) as [|m ms]; [contradiction|].
+  apply (n_loop_has_best rec Hfin p in_chk beta ply depth m ms s alpha r Hr). exact Hnone.
+Qed.
